@@ -173,6 +173,12 @@ class Taint:
             if e.id in seen:
                 return True, ""
             seen.add(e.id)
+            # a name bound as a non-first element of a tuple loop target is the payload that travels with the path (archive data)
+            for n in walk(f.node):
+                if isinstance(n, (ast.For, ast.comprehension)) and isinstance(n.target, ast.Tuple):
+                    for i, t in enumerate(n.target.elts):
+                        if i > 0 and isinstance(t, ast.Name) and t.id == e.id and not (isinstance(n.iter, ast.Call) and dotted(n.iter.func) == "enumerate"):
+                            return False, f"'{e.id}' is the payload component of a channel tuple (archive-controlled member properties), not the sanitised path"
             vals = q.assigned_values(f, e.id)
             if not vals:
                 return False, f"name '{e.id}' has no local definition"
